@@ -223,6 +223,13 @@ func readUnifiedChunk(r *diffReader) error {
 		return fmt.Errorf("line %d: right span: %w", r.ln, err)
 	}
 
+	// A range with an explicit zero count names the line before it.
+	if lhi == 0 && strings.Contains(parts[1], ",") {
+		llo++
+	}
+	if rhi == 0 && strings.Contains(parts[2], ",") {
+		rlo++
+	}
 	ch := &Chunk{LStart: llo, LEnd: llo + lhi, RStart: rlo, REnd: rlo + rhi}
 	add := func(op slice.EditOp, text string) {
 		if len(ch.Edits) == 0 || ch.Edits[len(ch.Edits)-1].Op != op {
